@@ -5,6 +5,7 @@ import (
 	"strings"
 	"testing"
 
+	"github.com/gdamore/tcell/v2"
 	"pgregory.net/rapid"
 	"verif.local/hx"
 	"verif.local/simrt"
@@ -45,6 +46,15 @@ type mousePre struct {
 	W2, H2 int
 	Race   bool
 	Yields int
+	// ReEnable: after this many reports (0 = never) the application calls
+	// EnableMouse again (Flags), or goes through a Suspend/Resume (Flags < 0),
+	// while a button may be held down.
+	ReEnable int
+	Flags    int
+	// Burst: the reads arrive back to back while the application does not
+	// poll for BurstMs (more reports than the event queue holds).
+	Burst   bool
+	BurstMs int
 }
 
 func runMouse(cfg hx.Config, ch *simrt.Chooser, reps []mrep, text []string, cuts []int, strictOnly bool, pres ...mousePre) (*hx.Failure, error) {
@@ -60,19 +70,22 @@ func runMouse(cfg hx.Config, ch *simrt.Chooser, reps []mrep, text []string, cuts
 	w.S.Note(hx.Fingerprint(cfg, reps, text, cuts, pre))
 	var preErr error
 	if pre.W2 > 0 {
-		w.S.Spawn("resizer", func() {
+		w.runTo(w.S.Spawn("resizer", func() {
 			_ = w.Scr.Suspend()
 			w.Tty.Resize(pre.W2, pre.H2)
 			preErr = w.Scr.Resume()
-		})
-		w.S.RunUntil(nil, w.S.Now()+1)
+		}))
 		w.Tty.Faults.Inc("resized_while_suspended")
 		mm.w, mm.h = pre.W2, pre.H2
 	}
 	var in []byte
 	var want []string
 	var strict []bool
+	reAt := -1 // byte offset at which the application reconfigures the mouse
 	for i, r := range reps {
+		if pre.ReEnable > 0 && i == pre.ReEnable && !pre.Race && !pre.Burst {
+			reAt = len(in)
+		}
 		in = append(in, r.bytes()...)
 		rel := r.Release
 		if !r.SGR {
@@ -95,17 +108,37 @@ func runMouse(cfg hx.Config, ch *simrt.Chooser, reps []mrep, text []string, cuts
 	start := 0
 	var chunks [][]byte
 	for i := 1; i <= len(in); i++ {
-		if i == len(in) || isCut[i] {
-			if pre.Race {
+		if i == len(in) || isCut[i] || i == reAt {
+			if pre.Race || pre.Burst {
 				chunks = append(chunks, in[start:i])
 			} else {
 				w.feedHold(in[start:i])
+			}
+			if i == reAt {
+				// everything so far has been decoded: the application changes
+				// its mouse configuration; the button state is the terminal's
+				// and the user's, not the configuration's
+				w.runTo(w.S.Spawn("reconfigure", func() {
+					switch {
+					case pre.Flags < 0:
+						_ = w.Scr.Suspend()
+						preErr = w.Scr.Resume()
+					case pre.Flags == 0:
+						w.Scr.EnableMouse()
+					default:
+						w.Scr.EnableMouse(tcell.MouseFlags(pre.Flags))
+					}
+				}))
+				w.Tty.Faults.Inc("mouse_reconfigured")
 			}
 			start = i
 			if i < len(in) {
 				w.Tty.Faults.Inc("read_split")
 			}
 		}
+	}
+	if pre.Burst && !pre.Race {
+		w.feedBurst(chunks, pre.BurstMs)
 	}
 	if pre.Race {
 		// Suspend lands while the reports are being read and decoded: what is
@@ -189,7 +222,7 @@ func runMouse(cfg hx.Config, ch *simrt.Chooser, reps []mrep, text []string, cuts
 			}
 		}
 	}
-	if held != len(got) && f == nil && !pre.Race {
+	if held != len(got) && f == nil && !pre.Race && !pre.Burst {
 		mk("C12/pos", "only %d of %d events were delivered before any time passed (complete reports need no timeout)", held, len(got))
 	}
 	hx.St.Record(w.S, w.Tty.Faults.Map(), func() interface{} {
@@ -303,6 +336,9 @@ func TestC12(t *testing.T) {
 		cfg := hx.Config{Term: rapid.SampledFrom(terms).Draw(rt, "term"), W: rapid.IntRange(1, 20).Draw(rt, "w"), H: rapid.IntRange(1, 10).Draw(rt, "h"),
 			Go123: rapid.Bool().Draw(rt, "go123"), GapScale: rapid.SampledFrom([]int{1, 5}).Draw(rt, "gap"), MapMode: rapid.IntRange(0, 4).Draw(rt, "mapmode"), AltScreen: true}
 		n := rapid.IntRange(1, 10).Draw(rt, "nrep")
+		if rapid.IntRange(0, 5).Draw(rt, "many") == 0 {
+			n = rapid.IntRange(11, 30).Draw(rt, "nrepmany") // more than the event queue holds
+		}
 		sgr := rapid.IntRange(0, 3).Draw(rt, "proto") != 0
 		var reps []mrep
 		var text []string
@@ -332,7 +368,11 @@ func TestC12(t *testing.T) {
 			cuts = append(cuts, rapid.IntRange(1, 120).Draw(rt, "cut"))
 		}
 		var pre mousePre
-		switch rapid.IntRange(0, 5).Draw(rt, "history") {
+		switch rapid.IntRange(0, 8).Draw(rt, "history") {
+		case 6:
+			pre.ReEnable, pre.Flags = rapid.IntRange(1, n).Draw(rt, "reat"), rapid.IntRange(-1, 7).Draw(rt, "reflags")
+		case 7, 8:
+			pre.Burst, pre.BurstMs = true, rapid.SampledFrom([]int{0, 60, 200}).Draw(rt, "burstms")
 		case 0:
 			pre.W2, pre.H2 = rapid.IntRange(1, 24).Draw(rt, "w2"), rapid.IntRange(1, 12).Draw(rt, "h2")
 		case 1:
